@@ -288,11 +288,11 @@ Qed.
 
 (* a script asking for its own target is refused with 208 *)
 Lemma build_self_dependency fuel e me ts w :
-  e_target e = Some me -> e_unlocked e = false ->
+  e_target e = Some me -> e_unlocked e = false -> e_no_oob e = false ->
   existsb (bytes_eqb me) ts = true ->
   build (S fuel) e MIfChange ts w = Ret (w, [], 208%Z).
 Proof.
-  intros Ht Hu Hin. cbn [build]. unfold frontend_deps. now rewrite Ht, Hu, Hin.
+  intros Ht Hu Ho Hin. cbn [build]. unfold frontend_deps. now rewrite Ht, Hu, Ho, Hin.
 Qed.
 
 (* a dependency met again while it is being checked is a cycle *)
